@@ -18,13 +18,16 @@ import (
 	"encoding/json"
 	"fmt"
 	"os"
+	"reflect"
 	"runtime"
 	"sync"
 	"time"
+	"unsafe"
 
 	"github.com/coreos/go-semver/semver"
 	"github.com/pingcap/kvproto/pkg/metapb"
 	"github.com/pingcap/kvproto/pkg/pdpb"
+	"github.com/tikv/pd/pkg/cache"
 	"github.com/tikv/pd/pkg/tsoutil"
 	"github.com/tikv/pd/server"
 	"github.com/tikv/pd/server/config"
@@ -433,6 +436,12 @@ func (f *Fixture) ResetConfig(w *faultkv.KV) error {
 		return err
 	}
 	v := f.baseVersion
+	// temporary (TTL) overrides live in an unexported cache of the options object: empty it
+	if fv := reflect.ValueOf(opt).Elem().FieldByName("ttl"); fv.IsValid() && !fv.IsNil() {
+		if c, ok := reflect.NewAt(fv.Type(), unsafe.Pointer(fv.UnsafeAddr())).Elem().Interface().(*cache.TTLString); ok && c != nil {
+			c.Clear()
+		}
+	}
 	opt.SetScheduleConfig(&sc)
 	opt.SetReplicationConfig(&rc)
 	opt.SetPDServerConfig(&pc)
